@@ -48,6 +48,25 @@ func C10(c *Ctx) {
 			okJoin = true
 		}
 	}
+	if !okJoin {
+		// the event built as a value and handed down: decided on the summary of what
+		// DelAllSession queues, plus the separator of the one Join on the way
+		effs, why := c.queueEffects(c.P.Func(fnDelAllSession))
+		okEff := why == "" && len(effs) == 1 && effs[0].queue == "sessionStateEvents" && effs[0].kindKnown && effs[0].kind == c.P.ConstInt("", "ClientStateEventDelAll") && effs[0].keyOwn
+		nJoin, okSep := 0, false
+		for _, f := range []*ssa.Function{c.P.Func(fnDelAllSession), das} {
+			for _, call := range CallsTo(f, "strings.Join") {
+				nJoin++
+				if sep, isC := constArgStr(call, 1); isC && sep == "," {
+					okSep = true
+				}
+			}
+			if das == c.P.Func(fnDelAllSession) {
+				break
+			}
+		}
+		okJoin = okEff && nJoin == 1 && okSep
+	}
 	r.Check(okJoin, "C10.delall-contract", FuncName(das), "DelAll event", c.P.Pos(das.Pos()), "Kind=ClientStateEventDelAll, Key=strings.Join(whitelist, \",\")", "delete-all event does not carry Kind=DelAll with the comma-joined whitelist as Key")
 	c.flushUnmodified("C10.flush-order")
 
